@@ -16,7 +16,7 @@ from sa import ir, cfg, logic, facts
 from sa.ir import fmt, walk, short
 from sa.logic import Not, And, Or
 from sa.callgraph import tree_effects, lvalue_root
-from .common import NS, KINDS, PARSE_VEC, callgraph, one, elem_calls, literal_value
+from .common import NS, KINDS, PARSE_VEC, callgraph, one, elem_calls, literal_value, bodies_of
 from .parse_loop import ParseLoop
 from . import C04
 
@@ -111,7 +111,7 @@ def run(ctx):
                               % n2.get("ln"), (fn, n2.get("ln")))
 
     # ---- R01.2
-    tpos = [f for f in prog.find(NS + "parser::try_parse_as_option") if f.has_cfg]
+    tpos = bodies_of(prog, NS + "parser::try_parse_as_option")
     ctx.need("R01.2", "try_parse_as_option instantiations", len(tpos), 2)
     for f in tpos:
         upd = lambda e: any(is_update_call(n) for n in elem_calls(e))
@@ -373,7 +373,7 @@ def run(ctx):
     ctx.rule("R01.11", "a value-taking option consumes a FOLLOWING token only when that token is a value token (does not start with a dash): "
                        "an option-like token is never swallowed unexamined")
     n11 = 0
-    tpos = [f for f in prog.find(NS + "parser::try_parse_as_option") if f.has_cfg]
+    tpos = bodies_of(prog, NS + "parser::try_parse_as_option")
     fe11 = facts.FactsEngine(prog, cg)
     for f in tpos:
         itp = f.params[1]["name"] if len(f.params) >= 2 else "it"
